@@ -58,6 +58,7 @@ int64_t carquet_column_read_batch(
 
     carquet_error_t error = CARQUET_ERROR_INIT;
     int64_t total_read = 0;
+    int64_t total_nonnull = 0;  /* values are returned packed: non-null rows only */
     size_t value_size = 0;
 
     /* Determine value size for pointer arithmetic */
@@ -92,7 +93,7 @@ int64_t carquet_column_read_batch(
         int64_t values_read = 0;
         int64_t to_read = max_values - total_read;
 
-        uint8_t* value_ptr = (uint8_t*)values + total_read * value_size;
+        uint8_t* value_ptr = (uint8_t*)values + total_nonnull * value_size;
         int16_t* def_ptr = def_levels ? def_levels + total_read : NULL;
         int16_t* rep_ptr = rep_levels ? rep_levels + total_read : NULL;
 
@@ -109,6 +110,18 @@ int64_t carquet_column_read_batch(
 
         if (values_read == 0) {
             break;
+        }
+
+        /* Count the non-null rows just delivered (they are the last
+         * values_read rows consumed from the current page). */
+        if (reader->max_def_level > 0 && reader->decoded_def_levels) {
+            const int16_t* page_defs = reader->decoded_def_levels +
+                                       (reader->page_values_read - values_read);
+            for (int64_t i = 0; i < values_read; i++) {
+                if (page_defs[i] == reader->max_def_level) total_nonnull++;
+            }
+        } else {
+            total_nonnull += values_read;
         }
 
         total_read += values_read;
